@@ -63,6 +63,45 @@ func (c09) Run(c *mon.Ctx, i int) {
 	}
 	n := len(d.B)
 	flushes := gen.FlushPositions(r, n)
+	var fixedParts [][]gen.Op
+	if i%8 == 5 && s.Level != -2 {
+		// A Flush that leaves the buffered end inside the last 258 bytes of the
+		// input buffer, then Writes that exactly fill the rest of it, stop one
+		// byte short, straddle it, or come byte by byte.
+		W := 32768
+		if s.Win4K {
+			W = 4096
+		}
+		ro := 2*W + 258
+		cyc := r.Pick(0, 0, 1, 2) * (W + 258)
+		f := cyc + 2*W + r.Intn(258)
+		d = gen.Make(r, []string{"text", "period", "runs", "alpha4", "farcopy"}[r.Intn(5)], cyc+ro+W+258+r.Range(100, 5000))
+		n = len(d.B)
+		flushes = []int{f}
+		if r.Bool() {
+			flushes = []int{f, f}
+		}
+		fill := cyc + ro - f
+		mk := func(parts ...int) []gen.Op {
+			ops := []gen.Op{{Kind: "write", N: f}}
+			for range flushes {
+				ops = append(ops, gen.Op{Kind: "flush"})
+			}
+			used := f
+			for _, p := range parts {
+				ops = append(ops, gen.Op{Kind: "write", N: p})
+				used += p
+			}
+			return append(ops, gen.Op{Kind: "write", N: n - used}, gen.Op{Kind: "close"})
+		}
+		fixedParts = [][]gen.Op{mk(fill), mk(fill-1, 1), mk(fill - 1), mk(fill + 1), mk(fill/2, fill-fill/2)}
+		var ones []int
+		for k := 0; k < fill+3; k++ {
+			ones = append(ones, 1)
+		}
+		fixedParts = append(fixedParts, mk(ones...))
+		c.Count("tail-fill-cases", 1)
+	}
 	ref, err := emit(c.API, s, d.B, gen.Schedule(r, n, flushes, "one"))
 	if err != nil {
 		c.Count("dropped:writer-error", 1)
@@ -74,12 +113,18 @@ func (c09) Run(c *mon.Ctx, i int) {
 		k = 4
 	}
 	desc := map[string]interface{}{"setting": s.String(), "data": d.Desc, "data_sha": mon.Sha(d.B), "flushes": fmt.Sprint(flushes)}
+	if fixedParts != nil {
+		k = len(fixedParts)
+	}
 	for p := 0; p < k; p++ {
 		style := []string{"random", "rollover", "zeros", "random"}[(p+i)%4]
 		if n <= 20000 && r.Chance(1, 4) {
 			style = "bytes"
 		}
 		ops := gen.Schedule(r, n, flushes, style)
+		if fixedParts != nil {
+			ops, style = fixedParts[p], "tail-fill"
+		}
 		got, err := emit(c.API, s, d.B, ops)
 		c.Eval(1)
 		if err != nil {
